@@ -1,0 +1,24 @@
+//go:build !verif
+
+package nitro
+
+import (
+	"io"
+	"os"
+	"unsafe"
+)
+
+// Simulation hooks (build tag verif). With the tag off they are empty and
+// inlined away.
+
+func vyield(site int)                                {}
+func vblock(site int) uintptr                        { return 0 }
+func venter(site int, tok uintptr)                   {}
+func vstart(site int, id int)                        {}
+func vexit()                                         {}
+func vlock(mu unsafe.Pointer)                        {}
+func vunlock(mu unsafe.Pointer)                      {}
+func vsim() bool                                     { return false }
+func vshards() int                                   { return 0 }
+func vfs(op, path string) error                      { return nil }
+func vwrapWriter(path string, fd *os.File) io.Writer { return nil }
